@@ -86,7 +86,7 @@ void harness (void)
     }
   else if (mode == 2)
     { /* undefined grammar, allocator contract, error state sequence */
-      int step = sx_choice ("scenario", 4), rc2;
+      int step = sx_choice ("scenario", 6), rc2;
       ntok = 0; rd = 0;
       if (step == 0)
         {
@@ -111,6 +111,20 @@ void harness (void)
           codes[1] = 8; ti = ri = 0; rc = yaep_read_grammar (g, 1, rd_term, rd_rule);
           sx_assert (rc == 0, "a successful call returns 0");
           sx_assert (yaep_error_code (g) == rc2, "error code still names the most recent failing call");
+        }
+      else if (step >= 4)
+        { /* two objects: the failing call is made on the object that was NOT used last */
+          struct grammar *h = yaep_create_grammar (); int hc;
+          sx_assume (h != NULL);
+          ncodes = 1; codes[0] = 7; ti = ri = 0; rc2 = yaep_read_grammar (h, 1, rd_term, rd_rule); sx_assert (rc2 == 0, "grammar accepted");
+          yaep_set_lookahead_level (h, 2);                       /* h is the object used last */
+          hc = yaep_error_code (h);
+          if (step == 4) rc = yaep_parse_grammar (g, 1, "S : 'a' # 0 ; ; |");
+          else { ncodes = 2; codes[0] = 7; codes[1] = 7; ti = ri = 0; rc = yaep_read_grammar (g, 1, rd_term, rd_rule); }
+          sx_assert (rc != 0, "defective definition fails");
+          sx_assert (yaep_error_code (g) == rc && yaep_error_message (g)[0] != 0, "the failure is recorded in the object of the failing call");
+          sx_assert (yaep_error_code (h) == hc, "another object's error state is untouched");
+          yaep_free_grammar (h);
         }
       else
         { /* invalid token, then a good parse */
